@@ -40,9 +40,16 @@ pub fn grow_cfg_page(second: u8, page: u16) -> DbCfg {
 }
 
 pub fn scenario(max_blocks: usize, max_id: u16) -> impl Strategy<Value = Scenario> {
-	(0u8..3, prop_oneof![3 => Just(0x7a31u16), 1 => Just(0xffffu16), 1 => Just(0u16)]).prop_flat_map(move |(second, page)| {
+	(0u8..3, prop_oneof![3 => Just(0x7a31u16), 1 => Just(0xffffu16), 1 => Just(0u16)], prop_oneof![3 => Just(false), 1 => Just(true)]).prop_flat_map(move |(second, page, rc)| {
 		// also the first and the last page of the index
-		let cfg = grow_cfg_page(second, page);
+		let mut cfg = grow_cfg_page(second, page);
+		if rc {
+			// the growing column reference-counted: Set raises, Del lowers the count, a third of
+			// the small writes are References (the write path looks the key up in every index
+			// generation before it decides between "present" and "absent")
+			cfg.cols[0].rc = true;
+			cfg.cols[0].preimage = true;
+		}
 		let ncols = cfg.cols.len() as u8;
 		let bulk = (0u16..max_id, 20u16..90, small_vspec()).prop_map(move |(start, n, v)| {
 			vec![Op::Commit((0..n).map(|i| Item { col: 0, ch: Change::Set((start + i) % max_id, VSpec { seed: v.seed.wrapping_add(i), ..v.clone() }) }).collect())]
@@ -54,6 +61,7 @@ pub fn scenario(max_blocks: usize, max_id: u16) -> impl Strategy<Value = Scenari
 				Item {
 					col,
 					ch: match v {
+						Some(v) if rc && col == 0 && v.seed % 3 == 0 => Change::Ref(k),
 						Some(v) => Change::Set(k, v),
 						None => Change::Del(k),
 					},
@@ -117,6 +125,7 @@ pub fn run_scenario(sc: &Scenario, dir: &Path, light: bool) -> CaseResult {
 	it.check_every_op = !light;
 	it.open()?;
 	let mut max_bits = 16u8;
+	let mut index_files_max_seen = 0usize;
 	for op in &sc.ops {
 		let two_before = index_files(dir).len() >= 2;
 		if let Op::Commit(items) = op {
@@ -147,6 +156,7 @@ pub fn run_scenario(sc: &Scenario, dir: &Path, light: bool) -> CaseResult {
 				out.label("index-grew");
 			}
 		}
+		index_files_max_seen = index_files_max_seen.max(files.len());
 		if files.len() >= 2 && two_before {
 			out.label("op-served-while-two-index-files");
 		}
@@ -162,6 +172,12 @@ pub fn run_scenario(sc: &Scenario, dir: &Path, light: bool) -> CaseResult {
 	out.count("leftover_index_entries", rep.leftovers);
 	it.step(&Op::Reopen)?;
 	it.check_reads(true)?;
+	if sc.cfg.cols[0].rc {
+		out.label("growing-column-reference-counted");
+	}
+	if index_files_max_seen >= 3 {
+		out.label("op-served-while-three-index-files");
+	}
 	out.label(match max_bits {
 		16 => "final-bits-16",
 		17 => "final-bits-17",
